@@ -474,6 +474,6 @@ property C03: lemma lastidx_is, lemma lastidx_none, lemma val_cat, lemma idx_lea
 
 // the version parser as part of C18: total (no panic: every BOUNDS/NIL/OVERFLOW obligation), a value xor an error,
 // and no write outside the result (frames)
-property C18: parseInto, Parse, (*Version).UnmarshalControl, cisdigit, cisalpha
+property C18: nosharedwrites, parseInto, Parse, (*Version).UnmarshalControl, cisdigit, cisalpha
 
 @*/
